@@ -150,9 +150,7 @@ class TransposeIndexRule(AbstractBinaryRule):
     ) -> list[AbstractLinearOperator]:
         assert isinstance(right, IndexOperator)
         indexed_axes = right.indexed_axes
-        if len(indexed_axes) > 1:
-            raise NoReduction
-        if right.unique_indices:
+        if len(indexed_axes) != 1:
             raise NoReduction
 
         dtype = right.out_promoted_dtype
@@ -163,9 +161,10 @@ class TransposeIndexRule(AbstractBinaryRule):
 
         axis = indexed_axes[0]
         index = right.indices[axis]
-        assert isinstance(index, Array)
-
         size_max = shape[axis]
+        if not isinstance(index, Array) or index.dtype == bool:
+            # an integer, a slice or a mask: the positions it selects along the axis
+            index = jnp.arange(size_max)[index]
         # negative entries alias non-negative positions: count them together
         index = jnp.where(index < 0, index + size_max, index)
         unique_indices, counts = jnp.unique(index, return_counts=True, size=size_max, fill_value=-1)
